@@ -101,3 +101,15 @@ TEXT['C01'].update(
                'model equality of whole histories are bounded, so the claim is "other".',
     level_note='Callee contracts: lens (C19), dict-level __setitem__/__getitem__ axioms, list repeat axiom for lengths 0/1. Trusted: VC generator, z3/cvc5.',
     technique='contract-based deductive verification (AST-generated VCs over a map-of-columns model, z3/cvc5) + bounded run-time contract check')
+
+PROPS['C06'].update(level='other', explanation='Deductive (counted as proved): _row_check equals the statement\'s reading of one condition (None / NaN / regex on strings / '
+    'membership) for every cell and condition; each step of inc\'s filter loop selects rows by a mask that is, entry by entry, _row_check of that row\'s cell; '
+    'and_ is the conjunction of the conditions; exc\'s mask is its negation (mask expression checked on the AST). Assumed: row selection by a boolean mask (C01, '
+    'bounded-checked). The induction over filters (rows kept = conjunction, partition, idempotence) is an argument in contracts/C06.py, not a solver step. '
+    'Bounded only: callable predicates, find_<col>, one_or_none, empty-result rebuild, columns kept.')
+TEXT['C06'].update(
+    level_text='Mixed: the per-cell condition logic (where inc and exc must agree) is proved over uninterpreted cell predicates for all cells and conditions; '
+               'the composition into a partition relies on the assumed mask-selection contract and a written induction, and the rest is bounded - hence "other".',
+    level_note='Uninterpreted: is_nan, is_str, isinstance(_, Pattern), Pattern.search, membership in as_list(value). Assumed contract: table[mask] (C01). '
+               'Two obligations are syntactic checks of the real AST text (exc mask expression, inc empty-result tail).',
+    technique='contract-based deductive verification (AST-generated VCs over uninterpreted cell predicates, z3/cvc5) + bounded run-time contract check')
